@@ -21,6 +21,21 @@ ALLOWED_BINDINGS = {
 }
 
 
+def _forced_by_presence(gs) -> bool:
+    """one of the guards is a test that cannot hold without a wildcard in the group (truth table: atom `None in self._attribute_group` false => test false)."""
+    from .common import atom_forces
+    for t, lab in gs:
+        try:
+            e = ast.parse(t, mode='eval').body
+        except SyntaxError:
+            continue
+        if lab == 'T' and atom_forces(e, 'None in self._attribute_group', False, False):
+            return True
+        if lab == 'F' and atom_forces(e, 'None not in self._attribute_group', True, True):
+            return True
+    return False
+
+
 def _wildcard_alias(f, v: ast.AST) -> bool:
     """`v` is a local name whose every definition in f is the wildcard entry of the group (`self._attribute_group.get(None)` / `[None]`)."""
     if not isinstance(v, ast.Name):
@@ -56,7 +71,7 @@ def _undeclared(ctx: Ctx, rule: str, meth: str, floor_bind: int) -> None:
             ok = any('XSI_NAMESPACE' in t and lab == 'T' and '==' in t for t, lab in gs)
             det = '' if ok else 'global attribute lookup not restricted to the XSI namespace'
         if ok and v == 'self._attribute_group[None]':
-            ok = ('None in self._attribute_group', 'T') in gs or ('None not in self._attribute_group', 'F') in gs
+            ok = ('None in self._attribute_group', 'T') in gs or ('None not in self._attribute_group', 'F') in gs or _forced_by_presence(gs)
             det = '' if ok else 'wildcard binding not guarded by the presence of a wildcard'
         if ok and alias:
             ok = (f'{v} is not None', 'T') in gs or (f'{v} is None', 'F') in gs
@@ -290,23 +305,51 @@ def rule_c(ctx: Ctx) -> None:
     ctx.explain('C03.c: path conditions of every yield of iter_value_constraints (fixed always, default only when enabled).')
 
 
+def prohibited_report(ctx: Ctx, rule: str, meth: str) -> None:
+    """A declared attribute whose use is "prohibited" must not occur: its presence is reported - in the caller's mode, whatever value constraint the
+    declaration carries - unless the attribute wildcard admits the name, in which case the *wildcard* (not the prohibited declaration) validates it."""
+    f = ctx.idx.cls(AG).methods[meth]
+    ctx.analysed(f.qualname)
+    g = cfg_of(ctx, f)
+    reps = [(n, c) for n, c in call_nodes(g, is_reporter_call)]
+    rd = g.reaching_defs(kinds='nTF')
+    hits = []
+    for n, c in reps:
+        msg = ' '.join(text(a_) for a_ in c.args if isinstance(a_, (ast.Constant, ast.Call, ast.BinOp, ast.JoinedStr)))
+        for a_ in c.args:
+            if isinstance(a_, ast.Name) and a_.id in ('reason', 'msg', 'message'):
+                msg += ' ' + ' '.join(text(d.ast.value) for d in rd[n].get(a_.id, set()) if d.ast is not None and isinstance(d.ast, ast.Assign))
+        if 'prohibited' in msg:
+            hits.append((n, c))
+    ctx.floor(rule, f'reports of a prohibited attribute in {meth}', len(hits), 1)
+    for n, c in hits:
+        gs = guards(ctx, f, n)
+        proh = any(("use == 'prohibited'" in t and lab == 'T') or ("use != 'prohibited'" in t and lab == 'F') for t, lab in gs)
+        # the conditions about this attribute (its declaration, its value, the wildcard); the enclosing loops and the early exits of the method are not about it
+        other = [t for t, lab in gs if 'prohibited' not in t and not t.startswith('for ') and
+                 any(k_ in t for k_ in ('xsd_attribute', 'value', 'fixed', 'default', 'is_matching(', '_attribute_group'))]
+        clean = all(('is_matching(' in t or 'None in self' in t or 'None not in self' in t) and 'fixed' not in t and 'default' not in t for t in other)
+        mixed = [t for t, lab in gs if 'prohibited' in t and ('fixed' in t or 'default' in t)]
+        mode = bool(c.args) and text(c.args[0]) == 'validation'
+        ok = proh and clean and not mixed and mode
+        ctx.ob(rule, f'{meth}: a prohibited attribute is reported unless the wildcard admits the name (whatever value constraint the declaration carries)', f.loc(c), ok,
+               '' if ok else (f'not in the caller\'s mode' if not mode else f'path condition {sorted(gs)}: the report depends on something else than the prohibited use and the wildcard'),
+               key=f'{meth}|prohibited')
+    # where the wildcard admits the name it also validates the value
+    binds = [n for n in g.nodes if n.kind == 'stmt' and isinstance(n.ast, ast.Assign) and any(text(t) == 'xsd_attribute' for t in n.ast.targets)
+             and (text(n.ast.value) == 'self._attribute_group[None]' or _wildcard_alias(f, n.ast.value))]
+    gov = [n for n in binds if any(("use == 'prohibited'" in t and lab == 'T') or ("use != 'prohibited'" in t and lab == 'F') for t, lab in guards(ctx, f, n))]
+    ok = bool(gov)
+    ctx.ob(rule, f'{meth}: a prohibited attribute that the wildcard admits is validated by the wildcard', f.loc(gov[0].ast) if gov else f.loc(), ok,
+           '' if ok else 'no rebinding of the validator to the wildcard on the prohibited branch: the value is checked against the type of the prohibited declaration - with a strict '
+           'wildcard an attribute without a global declaration is accepted, with a skip wildcard an arbitrary value is refused', key=f'{meth}|prohibited-wildcard-governs')
+
+
 def rule_d(ctx: Ctx) -> None:
     rule = 'C03.d'
-    f = ctx.idx.cls(AG).methods['raw_decode']
-    g = cfg_of(ctx, f)
-    hits = 0
-    for n in g.nodes:
-        if n.kind == 'if' and "use == 'prohibited'" in text(n.ast.test):
-            hits += 1
-            t = text(n.ast.test)
-            reps = [c for s in n.ast.body for c in calls(s) if is_reporter_call(c)]
-            ok = bool(reps) and 'is_matching(name)' in t and 'fixed' not in t and 'default' not in t and \
-                all(text(c.args[0]) == 'validation' for c in reps)
-            ctx.ob(rule, 'a prohibited attribute is reported unless a wildcard admits the name (whatever value constraint the declaration carries)', f.loc(n.ast), ok,
-                   '' if ok else ('no report on the true branch' if not reps else f'test is `{t}`: a prohibited attribute that also has a fixed/default value is '
-                                  'accepted when present'), key='prohibited')
-    ctx.floor(rule, "tests of use == 'prohibited'", hits, 1)
-    ctx.explain('C03.d: presence and guard of the prohibited-use report.')
+    prohibited_report(ctx, rule, 'raw_decode')
+    ctx.explain('C03.d: path condition of the prohibited-use report in XsdAttributeGroup.raw_decode (prohibited use, wildcard tests, nothing else; caller\'s mode) and the rebinding of '
+                'the validator to the wildcard on the prohibited branch.')
 
 
 def rule_e(ctx: Ctx) -> None:
